@@ -1,0 +1,66 @@
+//go:build verif
+
+package consensus
+
+import "github.com/icon-project/goloop/module"
+
+// Thin exported wrappers around unexported consensus internals for the
+// external verification harness (/verif). No logic lives here.
+
+// VerifVoteSet wraps the unexported voteSet.
+type VerifVoteSet struct {
+	vs *voteSet
+}
+
+func VerifNewVoteSet(nValidators int) *VerifVoteSet {
+	return &VerifVoteSet{vs: newVoteSet(nValidators)}
+}
+
+func (v *VerifVoteSet) Add(index int, msg *VoteMessage) bool { return v.vs.add(index, msg) }
+
+func (v *VerifVoteSet) CheckAndAdd(index int, msg *VoteMessage) bool {
+	return v.vs.Add(index, msg)
+}
+
+func (v *VerifVoteSet) HasOverTwoThirds() bool { return v.vs.hasOverTwoThirds() }
+
+func (v *VerifVoteSet) GetOverTwoThirdsPartSetID() (*PartSetID, bool) {
+	return v.vs.getOverTwoThirdsPartSetID()
+}
+
+func (v *VerifVoteSet) GetOverTwoThirdsRoundDecisionDigest() ([]byte, *PartSetID, bool) {
+	return v.vs.getOverTwoThirdsRoundDecisionDigest()
+}
+
+func (v *VerifVoteSet) Msg(index int) *VoteMessage { return v.vs.msgs[index] }
+
+// VerifDSMLog wraps the unexported dsmLog.
+type VerifDSMLog struct {
+	l dsmLog
+}
+
+func VerifMakeDSMLog(cap int) *VerifDSMLog { return &VerifDSMLog{l: makeDSMLog(cap)} }
+
+func (d *VerifDSMLog) LogAndCheckVoteMessage(msg *VoteMessage) []module.DoubleSignData {
+	return d.l.LogAndCheckVoteMessage(msg)
+}
+
+func (d *VerifDSMLog) LogAndCheckProposalMessage(msg *ProposalMessage) []module.DoubleSignData {
+	return d.l.LogAndCheckProposalMessage(msg)
+}
+
+// VerifNewVote builds and signs a VoteMessage with the given fields
+// (bpsIDAndAppData may carry app-data, or be nil for a nil vote).
+func VerifNewVote(
+	w module.Wallet, height int64, round int32, vt VoteType,
+	bid []byte, bpsIDAndAppData *PartSetIDAndAppData, ts int64,
+) (*VoteMessage, error) {
+	msg := newVoteMessage()
+	msg.Height = height
+	msg.Round = round
+	msg.Type = vt
+	msg.SetRoundDecision(bid, bpsIDAndAppData, nil)
+	msg.Timestamp = ts
+	err := msg.Sign(w)
+	return msg, err
+}
